@@ -217,23 +217,28 @@ def demux_scenarios(ctx, cfgs, prefix, sample=None):
 def run_c02(ctx):
     build_harness(ctx)
     quick = ctx.tier == 'quick'
-    for cfg in (['Demux_c02_psi.cfg'] if quick else ['Demux_c02_psi.cfg', 'Demux_c02_pes.cfg']):
+    for cfg in (['Demux_c02_psi.cfg', 'Demux_c02_early.cfg'] if quick else ['Demux_c02_psi.cfg', 'Demux_c02_early.cfg', 'Demux_c02_pes.cfg']):
         model_check(ctx, 'MC_Demux', cfg)
     if quick:
-        scs = demux_scenarios(ctx, ['Demux_gen_psi_quick.cfg', 'Demux_gen_pes_quick.cfg'], 'dg', sample=12000)
+        scs = demux_scenarios(ctx, ['Demux_gen_psi_quick.cfg', 'Demux_gen_pes_quick.cfg', 'Demux_gen_early_quick.cfg'], 'dg', sample=9000)
     else:
-        scs = demux_scenarios(ctx, ['Demux_gen_psi_deep.cfg', 'Demux_gen_pes_deep.cfg', 'Demux_gen_big.cfg'], 'dg', sample=200000)
-    rnd = harness_gen(ctx, 'demux', 400 if quick else 20000, ctx.seed, 4)
+        scs = demux_scenarios(ctx, ['Demux_gen_psi_deep.cfg', 'Demux_gen_pes_deep.cfg', 'Demux_gen_big.cfg', 'Demux_gen_early_deep.cfg'], 'dg', sample=200000)
+    rnd = harness_gen(ctx, 'demux', 300 if quick else 15000, ctx.seed, 4)
+    rnd2 = harness_gen(ctx, 'demux', 150 if quick else 5000, ctx.seed + 7777, 4, opt='earlypmt')
+    for s in rnd2:
+        s['sid'] = 'e' + s['sid']
+    rnd += rnd2
     return pipeline(
         ctx, 'Mon_C02', 'demux', scs + rnd,
         rule='scenario = well-formed transport stream (units with byte layouts + packetisation + interleaving); TLC-generated: one per transition of the '
              'Demux.tla (generator x demuxer) state graph, completed canonically; random: seeded reference multiplexer harness/streamgen.go '
              '(1..8 PIDs, bounded/unbounded PES, 1..3 sections, pointer fields, trailing stuffing or exact fit); distinct by hash of units+packets',
         assumptions=['well-formed per ISO 13818-1 2.4.4: the payload_unit_start packet of a section carries the section\'s first byte; on PAT/PMT PIDs no '
-                     'interior section boundary coincides with a packet boundary (DESIGN.md 7)', 'explicit packet size 188 for the no-read-ahead clause'])
+                     'interior section boundary coincides with a packet boundary (DESIGN.md 7)', 'explicit packet size 188 for the no-read-ahead clause',
+                     'units on a PMT PID that start before the first PAT is complete are optional (a receiver cannot know the PID yet); units that start later are not'])
 
 
-def fault_variants(sc, kinds=('dup', 'drop'), every=1):
+def fault_variants(sc, kinds=('dup', 'duppcr', 'drop'), every=1):
     """every single-packet duplication / deletion position of a clean stream scenario"""
     out = []
     idx = [i for i, p in enumerate(sc['pkts']) if p.get('k', '') == '']
@@ -243,9 +248,12 @@ def fault_variants(sc, kinds=('dup', 'drop'), every=1):
         for f in kinds:
             v = dict(sc)
             pk = [dict(p) for p in sc['pkts']]
-            if f == 'dup':
+            if f in ('dup', 'duppcr'):
+                if f == 'duppcr' and not pk[i].get('pcr'):
+                    continue
                 d = dict(pk[i])
                 d['f'] = 'dup'
+                d['dp'] = f == 'duppcr'
                 pk.insert(i + 1, d)
             else:
                 pk[i]['f'] = 'drop'
@@ -438,12 +446,24 @@ def run_c08(ctx):
     quick = ctx.tier == 'quick'
     reader_models(ctx)
     clean = demux_scenarios(ctx, ['Demux_gen_psi_quick.cfg', 'Demux_gen_pes_quick.cfg'], 'cg', sample=6 if quick else 120)
-    rnd = harness_gen(ctx, 'demux', 6 if quick else 120, ctx.seed, 3)
+    rnd = harness_gen(ctx, 'demux', 8 if quick else 120, ctx.seed, 3)
     scs = []
     for s in clean + rnd:
         v = dict(s)
         v['kind'] = 'reader'
         scs.append(v)
+        # a variant whose second packet has a 0x47 byte in its header (PID 0x147 / 0x747): a legal stream in which bytes 189..192 look like
+        # sync bytes to the packet size detection
+        idx = [i for i, p in enumerate(s['pkts']) if p.get('pid') in (0x147, 0x747) and p.get('k', '') == '']
+        if idx and idx[0] > 1:
+            w = dict(s)
+            pk = list(s['pkts'])
+            first = pk.pop(idx[0])
+            pk.insert(1, first)
+            w['pkts'] = pk
+            w['kind'] = 'reader'
+            w['sid'] = s['sid'] + '-s47'
+            scs.append(w)
     return pipeline(
         ctx, 'Mon_C08', 'reader', scs, opt='' if quick else 'deep',
         rule='scenario = stream; per scenario a fixed family of configurations: reader kind {bytes.Reader, bufio, plain, short-read (seekable / not / under '
@@ -460,16 +480,20 @@ def run_c03(ctx):
     clean = demux_scenarios(ctx, ['Demux_gen_psi_quick.cfg', 'Demux_gen_pes_quick.cfg'], 'bg', sample=16 if quick else 400)
     rnd = harness_gen(ctx, 'demux', 14 if quick else 300, ctx.seed, 2)
     scs = []
-    for s in clean + rnd:
+    for j, s in enumerate(clean + rnd):
         v = dict(s)
         v['kind'] = 'robust'
+        # the sections-with-typed-descriptors inputs are added to every fourth scenario (quick) / every scenario (thorough)
+        v['run'] = {'api': '' if (not quick or j % 4 == 0) else 'notyped'}
         scs.append(v)
     return pipeline(
         ctx, 'Mon_C03', 'robust', scs, opt='' if quick else 'deep',
         rule='scenario = well-formed stream; per scenario the harness derives inputs: the stream itself, empty input, every length-like field the layouts '
              'declare (pointer_field, section_length, program_info/ES_info/descriptor loop lengths, descriptor_length, PES_packet_length, '
              'PES_header_data_length, adaptation_field_length) set to {0, 1, true-1, true+1, max}, inconsistent adaptation flags, truncation at every '
-             'offset of the last packet and sampled offsets, random byte corruption, garbage with/without sync bytes; each input x configurations '
+             'offset of the last packet and sampled offsets, random byte corruption, garbage with/without sync bytes; plus a stream of PAT/PMT/SDT/NIT/EIT/TOT '
+             'sections carrying descriptors of every supported kind with every descriptor_length / loop length / section_length mutated (CRC stale '
+             'and recomputed); each input x configurations '
              '{auto,188,192,204,189} x {bytes.Reader, bufio, plain, 1-byte reads} x {NextPacket, NextData} (5 sampled per malformed input in quick)',
         assumptions=['bound on calls before ErrNoMorePackets: |input| + 2', 'a call that does not return within 20 s is a hang'])
 
@@ -564,7 +588,7 @@ def run_c11(ctx):
     sd = ctx.seed
     scs = ranged('pids', 0, 8192, 1024 if quick else 512, sd, prefix='ts')
     scs = [s for i, s in enumerate(scs)] if not quick else scs[::4] + ranged('pids', 0, 64, 64, sd + 1, prefix='ts')[:0]
-    for part, n in (('hdr', 1), ('afsubsets', 2 if quick else 12), ('aflen', 1), ('clock', 1), ('priv', 1)):
+    for part, n in (('special', 1), ('hdr', 1), ('afsubsets', 2 if quick else 12), ('aflen', 1), ('clock', 1), ('priv', 1)):
         scs.append({'sid': 'ts-%s' % part, 'kind': 'ts', 'part': part, 'seed': sd, 'n': n})
     for i in range(8 if quick else 64):
         scs.append({'sid': 'ts-random-%d' % i, 'kind': 'ts', 'part': 'random', 'seed': sd * 977 + i, 'n': 250 if quick else 2000})
